@@ -305,6 +305,7 @@ type attempt struct {
 	rawDest string
 	bodyLen int
 	ids     []int
+	rates   []int64
 	t       int64
 	beh     string
 }
@@ -313,6 +314,18 @@ func wireKey(host, escPath, key string) string { return host + "\x00" + escPath 
 
 // decodeBody returns the `id` field of every event of a msgpack batch body.
 func decodeBody(b []byte) ([]int, error) {
+	ids, _, err := decodeBodyRates(b)
+	return ids, err
+}
+
+// decodeBodyRates also returns the `samplerate` of every event as it is on the wire.
+func decodeBodyRates(b []byte) ([]int, []int64, error) {
+	var rates []int64
+	ids, err := decodeBodyInto(b, &rates)
+	return ids, rates, err
+}
+
+func decodeBodyInto(b []byte, rates *[]int64) ([]int, error) {
 	n, b, err := msgp.ReadArrayHeaderBytes(b)
 	if err != nil {
 		return nil, err
@@ -330,6 +343,14 @@ func decodeBody(b []byte) ([]int, error) {
 			k, b, err = msgp.ReadMapKeyZC(b)
 			if err != nil {
 				return nil, err
+			}
+			if string(k) == "samplerate" && rates != nil {
+				var v int64
+				if v, b, err = msgp.ReadInt64Bytes(b); err != nil {
+					return nil, err
+				}
+				*rates = append(*rates, v)
+				continue
 			}
 			if string(k) != "data" {
 				if b, err = msgp.Skip(b); err != nil {
@@ -399,7 +420,7 @@ func proxyHook(req *http.Request) (*url.URL, error) {
 		}
 		body = dec
 	}
-	ids, err := decodeBody(body)
+	ids, rates, err := decodeBodyRates(body)
 	if err != nil {
 		bad = "!body"
 	}
@@ -437,7 +458,7 @@ func proxyHook(req *http.Request) (*url.URL, error) {
 	if pos < len(r.script) {
 		beh = r.script[pos]
 	}
-	r.attempts = append(r.attempts, attempt{dest: di, rawDest: rawDest, bodyLen: len(body), ids: ids,
+	r.attempts = append(r.attempts, attempt{dest: di, rawDest: rawDest, bodyLen: len(body), ids: ids, rates: rates,
 		t: int64(r.clock.Now().Sub(epoch)), beh: beh + bad})
 	switch beh {
 	case "to":
@@ -762,6 +783,30 @@ func retryAfterExt(raw string) string {
 	return "x"
 }
 
+// rateOf is the sample rate of the events of an operation (`r=<n>`, default 1).
+func rateOf(op []string) uint64 {
+	for _, a := range op {
+		if strings.HasPrefix(a, "r=") {
+			if v, err := strconv.ParseUint(a[2:], 10, 64); err == nil {
+				return v
+			}
+		}
+	}
+	return 1
+}
+
+var ratePool = []uint64{0, 1, 2, 10, 1<<31 - 2, 1<<31 - 1, 1 << 31, 1<<32 - 1, 1 << 32, 1<<53 + 1, 1<<63 - 1, 1 << 63, 1<<64 - 1}
+
+func genRate(r *kit.Rng) uint64 {
+	switch r.Pick(45, 40, 15) {
+	case 0:
+		return 1
+	case 1:
+		return ratePool[r.Intn(len(ratePool))]
+	}
+	return r.Next() >> uint(r.Intn(40)) // a random large rate
+}
+
 func parseScript(op []string) []string {
 	s := ""
 	for _, a := range op {
@@ -784,7 +829,7 @@ func parseScript(op []string) []string {
 	return toks
 }
 
-func (r *runner) mkEvent(id, di int, target string) *types.Event {
+func (r *runner) mkEvent(id, di int, target string, rate uint64) *types.Event {
 	d := dest{}
 	if di >= 0 && di < len(r.dests) {
 		d = r.dests[di]
@@ -795,7 +840,7 @@ func (r *runner) mkEvent(id, di int, target string) *types.Event {
 		APIKey:      d.key,
 		Dataset:     d.dataset,
 		Environment: envOf(d.key),
-		SampleRate:  1,
+		SampleRate:  uint(rate),
 		Timestamp:   time.Unix(1700000000, 0),
 	}
 	if target == "m" {
@@ -969,7 +1014,11 @@ func (r *runner) observe(extra string) string {
 			for x, id := range atts[j].ids {
 				ids[x] = strconv.Itoa(id)
 			}
-			recs = append(recs, fmt.Sprintf("%d|%s|%d|%s", atts[j].bodyLen, strings.Join(ids, "."), atts[j].t, atts[j].beh))
+			rts := make([]string, len(atts[j].rates))
+			for x, v := range atts[j].rates {
+				rts[x] = strconv.FormatInt(v, 10)
+			}
+			recs = append(recs, fmt.Sprintf("%d|%s|%d|%s|%s", atts[j].bodyLen, strings.Join(ids, "."), atts[j].t, atts[j].beh, strings.Join(rts, ".")))
 			j++
 		}
 		groups = append(groups, name(atts[i])+"@"+strings.Join(recs, ","))
@@ -1045,7 +1094,7 @@ func (r *runner) do(op []string) (string, bool) {
 		r.beginOp(parseScript(op))
 		id := r.nextID
 		r.nextID++
-		ev := r.mkEvent(id, di, op[2])
+		ev := r.mkEvent(id, di, op[2], rateOf(op))
 		if n, err := transmit.VerifTransmitMarshalSize(ev); err != nil {
 			kit.Ext("size %d = err", id)
 		} else {
@@ -1073,7 +1122,7 @@ func (r *runner) do(op []string) (string, bool) {
 		r.nextID += k
 		evs := make([]*types.Event, k)
 		for i := range evs {
-			evs[i] = r.mkEvent(base+i, dl[i%len(dl)], strconv.Itoa(100+i))
+			evs[i] = r.mkEvent(base+i, dl[i%len(dl)], strconv.Itoa(100+i), rateOf(op))
 			if n, err := transmit.VerifTransmitMarshalSize(evs[i]); err != nil {
 				kit.Ext("size %d = err", base+i)
 			} else {
@@ -1130,7 +1179,7 @@ func (r *runner) do(op []string) (string, bool) {
 		evs := make([]*types.Event, k)
 		isNew := map[int]bool{}
 		for i := range evs {
-			evs[i] = r.mkEvent(base+i, dl[i%len(dl)], strconv.Itoa(100+i))
+			evs[i] = r.mkEvent(base+i, dl[i%len(dl)], strconv.Itoa(100+i), rateOf(op))
 			isNew[base+i] = true
 			if n, err := transmit.VerifTransmitMarshalSize(evs[i]); err != nil {
 				kit.Ext("size %d = err", base+i)
@@ -1435,7 +1484,7 @@ func (comp) Gen(r *kit.Rng, maxLen int, tier string) kit.Case {
 			if holdBig {
 				sz = 1_000_000 - r.Intn(2)*r.Intn(1000)
 			}
-			ops = append(ops, fmt.Sprintf("enq %d %d s=%s", j, sz, script()))
+			ops = append(ops, fmt.Sprintf("enq %d %d r=%d s=%s", j, sz, genRate(r), script()))
 		}
 		cnt[j], start[j], sum[j] = nb, now, 0
 		stale := now + bt
@@ -1493,7 +1542,7 @@ func (comp) Gen(r *kit.Rng, maxLen int, tier string) kit.Case {
 		if rest != "-" {
 			sc += "," + rest
 		}
-		ops = append(ops, fmt.Sprintf("advh %d %d %s s=%s", int64(d), k, strings.Join(strs, "."), sc))
+		ops = append(ops, fmt.Sprintf("advh %d %d %s r=%d s=%s", int64(d), k, strings.Join(strs, "."), genRate(r), sc))
 		return true
 	}
 	for i := 0; i < n; i++ {
@@ -1560,7 +1609,7 @@ func (comp) Gen(r *kit.Rng, maxLen int, tier string) kit.Case {
 					cnt[j] = 0
 				}
 			}
-			ops = append(ops, fmt.Sprintf("cenq %d %s s=%s", k, strings.Join(strs, "."), script()))
+			ops = append(ops, fmt.Sprintf("cenq %d %s r=%d s=%s", k, strings.Join(strs, "."), genRate(r), script()))
 		case 0:
 			var plain []int
 			for j := 0; j < nd; j++ {
@@ -1632,7 +1681,7 @@ func (comp) Gen(r *kit.Rng, maxLen int, tier string) kit.Case {
 			if cnt[di] >= mb {
 				cnt[di] = 0
 			}
-			ops = append(ops, fmt.Sprintf("enq %d %s s=%s", di, target, script()))
+			ops = append(ops, fmt.Sprintf("enq %d %s r=%d s=%s", di, target, genRate(r), script()))
 		case 1:
 			var d time.Duration
 			toTick := period - now%period
